@@ -269,6 +269,8 @@ class Matcher:
                 if self.gn[b.num] is not None:
                     raise Diff("%s: source reference %r is dangling but the copy is not null" % (path, a))
                 return
+            if self.gn[b.num] is None and self.gs[a.num] is not None:
+                raise Diff("%s: source object %d is lost: its copy, new object %d, is null" % (path, a.num, b.num))
             return self.eq(self.gs[a.num], self.gn[b.num], path + "->%d" % a.num)
         if isinstance(a, Ref) or isinstance(b, Ref):
             if self.strict:
@@ -314,6 +316,11 @@ class Matcher:
         if type(a) != type(b) and not (isinstance(a, (list, tuple)) and isinstance(b, (list, tuple))):
             raise Diff("%s: %r against %r" % (path, _short(a), _short(b)))
         if isinstance(a, dict):
+            for k in a:
+                # an entry whose copy refers to a null object says nothing any more: name the object that was lost
+                if k in b and isinstance(a[k], Ref) and isinstance(b[k], Ref) and deref(self.gs, a[k]) is not None \
+                        and b[k].num in self.gn and self.gn[b[k].num] is None:
+                    raise Diff("%s/%s: source object %d is lost: its copy, new object %d, is null" % (path, k, a[k].num, b[k].num))
             ka = set(k for k in a if k not in top_ignore and k not in self.ignore and not _nullish(self.gs, a[k]) and not _is_default(self.gs, k, a[k]))
             kb = set(k for k in b if k not in top_ignore and k not in self.ignore and not _nullish(self.gn, b[k]) and not _is_default(self.gn, k, b[k]))
             if "Type" in kb and "Type" not in ka and isinstance(deref(self.gn, b["Type"]), Name):
@@ -793,7 +800,11 @@ def split_import_result(fields):
     return {"npages": n, "views": views, "new_objs": new_objs, "new_trailer": new_trailer, "src_objs": src_objs, "src_trailer": src_trailer}
 
 
-def judge_import(gs, src_trailer, sel, fields, expect=None, content_tokens=True, pattern_lost_ok=()):
+# entries of a page object that the page view / the resources judge, or that an import does not carry (/Parent, /Annots)
+PAGE_JUDGED = ("Type", "Parent", "Resources", "MediaBox", "CropBox", "TrimBox", "Contents", "Rotate", "Annots")
+
+
+def judge_import(gs, src_trailer, sel, fields, expect=None, content_tokens=True, pattern_lost_ok=(), page_entries=False):
     """None if the imported pages satisfy C20, else the reason.
 
     gs / src_trailer : the source graph and trailer dictionary (known by construction, or the dump of the source)
@@ -883,6 +894,17 @@ def judge_import(gs, src_trailer, sel, fields, expect=None, content_tokens=True,
                 return "resource content differs: %s" % e
             except RecursionError:
                 return "oracle: recursion limit while comparing /%s /%s" % (cat, key)
+        # --- the other entries of the page object (page_entries=True): each is there with equal content
+        if page_entries:
+            for key in sorted(sp):
+                if key in PAGE_JUDGED or deref(gs, sp[key]) is None:
+                    continue
+                if key not in np_:
+                    return "page %d: entry /%s of the source page is missing" % (j, key)
+                try:
+                    M.eq(sp[key], np_[key], "page%d/%s" % (j, key))
+                except Diff as e:
+                    return "page entry differs: %s" % e
     # --- shared source objects are copied once
     cr = copy_relation_problems(M.pairs)
     if cr:
